@@ -6,7 +6,61 @@ import Cello.Fmt
 
 namespace Cello.Fmt
 
-variable (prim : Str → PVal → Str)
+variable (prim : Prim)
+
+/-! ### one call -/
+
+theorem out_of_rej {frag : Str} {v : PVal} (h : prim.rej frag v = true) : prim.out frag v = [] := by simp [Prim.out, h]
+
+theorem out_of_acc {frag : Str} {v : PVal} (h : prim.rej frag v = false) : prim.out frag v = prim.text frag v := by
+  simp [Prim.out, h]
+
+theorem sink_reject_guarded (hg : prim.Guarded) (s : Sink) (pos : Nat) :
+    s.reject prim.strSteps pos = (s, .raised .FormatError) := by
+  cases s with
+  | str v => exact hg v pos
+  | file c => rfl
+
+/-- with the guard in place a rejected call only enters the log -/
+theorem formatTo_rej (hg : prim.Guarded) (o : Out) {frag : Str} {v : PVal} (h : prim.rej frag v = true) :
+    o.formatTo prim frag v = { o with calls := o.calls ++ [⟨frag, v⟩] } := by
+  simp [Out.formatTo, h, sink_reject_guarded prim hg]
+
+theorem formatTo_acc (o : Out) {frag : Str} {v : PVal} (h : prim.rej frag v = false) :
+    o.formatTo prim frag v =
+      { sink := o.sink.write o.pos (prim.text frag v), pos := o.pos + (prim.text frag v).length, calls := o.calls ++ [⟨frag, v⟩] } := by
+  simp [Out.formatTo, h]
+
+/-- what `print_to_with` sees after one call: FormatError exactly when libc rejected it (guard in place) -/
+def callOutcome (frag : Str) (v : PVal) : Outcome := if prim.rej frag v then .raised .FormatError else .ok
+
+theorem callOc_guarded (hg : prim.Guarded) (o : Out) (frag : Str) (v : PVal) :
+    o.callOc prim frag v = callOutcome prim frag v := by
+  unfold Out.callOc callOutcome
+  split
+  · rw [sink_reject_guarded prim hg]
+  · rfl
+
+theorem call_guarded (hg : prim.Guarded) (o : Out) (frag : Str) (v : PVal) :
+    o.call prim frag v = (o.formatTo prim frag v, callOutcome prim frag v) := by
+  simp [Out.call, callOc_guarded prim hg]
+
+theorem call_acc (o : Out) {frag : Str} {v : PVal} (h : prim.rej frag v = false) :
+    o.call prim frag v = (o.formatTo prim frag v, .ok) := by
+  simp [Out.call, Out.callOc, h]
+
+theorem formatTo_pos (o : Out) (frag : Str) (v : PVal) : (o.formatTo prim frag v).pos = o.pos + (prim.out frag v).length := by
+  unfold Out.formatTo Prim.out
+  split <;> simp
+
+theorem formatTo_calls (o : Out) (frag : Str) (v : PVal) : (o.formatTo prim frag v).calls = o.calls ++ [⟨frag, v⟩] := by
+  unfold Out.formatTo
+  split <;> simp
+
+theorem formatTo_file (o : Out) (frag : Str) (v : PVal) (c : Str) (h : o.sink = .file c) :
+    (o.formatTo prim frag v).sink = .file (c ++ prim.out frag v) := by
+  unfold Out.formatTo Prim.out
+  split <;> simp [h, Sink.reject, Sink.write]
 
 /-! ### what a sequence of calls does -/
 
@@ -19,45 +73,113 @@ theorem emitAll_append (o : Out) (cs ds : List Call) :
     emitAll prim o (cs ++ ds) = emitAll prim (emitAll prim o cs) ds := by
   simp [emitAll, List.foldl_append]
 
-theorem textOf_cons (c : Call) (cs : List Call) : textOf prim (c :: cs) = prim c.frag c.val ++ textOf prim cs := by
+theorem textOf_cons (c : Call) (cs : List Call) : textOf prim (c :: cs) = prim.out c.frag c.val ++ textOf prim cs := by
+  simp [textOf]
+
+theorem textOf_append (cs ds : List Call) : textOf prim (cs ++ ds) = textOf prim cs ++ textOf prim ds := by
   simp [textOf]
 
 theorem emitAll_pos (cs : List Call) : ∀ o : Out, (emitAll prim o cs).pos = o.pos + (textOf prim cs).length := by
   induction cs with
   | nil => intro o; simp [emitAll, textOf]
-  | cons c cs ih => intro o; rw [emitAll_cons, ih, textOf_cons]; simp [Out.formatTo]; omega
+  | cons c cs ih => intro o; rw [emitAll_cons, ih, textOf_cons, formatTo_pos]; simp; omega
 
 theorem emitAll_calls (cs : List Call) : ∀ o : Out, (emitAll prim o cs).calls = o.calls ++ cs := by
   induction cs with
   | nil => intro o; simp [emitAll]
-  | cons c cs ih => intro o; rw [emitAll_cons, ih]; simp [Out.formatTo]
+  | cons c cs ih => intro o; rw [emitAll_cons, ih, formatTo_calls]; simp
 
+/-- a File receives the text of the accepted calls, whatever `String_Format_To` looks like -/
 theorem emitAll_file (cs : List Call) : ∀ (o : Out) (c : Str), o.sink = .file c →
     (emitAll prim o cs).sink = .file (c ++ textOf prim cs) := by
   induction cs with
   | nil => intro o c h; simp [emitAll, textOf, h]
   | cons d cs ih =>
     intro o c h
-    rw [emitAll_cons, ih _ (c ++ prim d.frag d.val) (by simp [Out.formatTo, h, Sink.write]), textOf_cons]
+    rw [emitAll_cons, ih _ (c ++ prim.out d.frag d.val) (formatTo_file prim o _ _ c h), textOf_cons]
     simp
 
-/-- a String whose length is the position: every call appends -/
-theorem emitAll_str_end (cs : List Call) : ∀ (o : Out) (v : Str), o.sink = .str v → o.pos = v.length →
+/-- all calls of the list are accepted by libc -/
+def AllAcc (cs : List Call) : Prop := ∀ c ∈ cs, prim.rej c.frag c.val = false
+
+theorem allAcc_accepted (cs : List Call) : AllAcc prim (accepted prim cs) := by
+  intro c hc
+  have := (List.mem_filter.1 hc).2
+  simpa using this
+
+theorem textOf_accepted (cs : List Call) : textOf prim (accepted prim cs) = textOf prim cs := by
+  induction cs with
+  | nil => rfl
+  | cons c cs ih =>
+    by_cases h : prim.rej c.frag c.val = true
+    · have : accepted prim (c :: cs) = accepted prim cs := by simp [accepted, h]
+      rw [this, ih, textOf_cons, out_of_rej prim h]; rfl
+    · have : accepted prim (c :: cs) = c :: accepted prim cs := by simp [accepted, h]
+      rw [this, textOf_cons, textOf_cons, ih]
+
+/-- a String whose length is the position: every accepted call appends -/
+theorem emitAll_str_end (cs : List Call) (hacc : AllAcc prim cs) : ∀ (o : Out) (v : Str), o.sink = .str v → o.pos = v.length →
     (emitAll prim o cs).sink = .str (v ++ textOf prim cs) := by
   induction cs with
   | nil => intro o v h _; simp [emitAll, textOf, h]
   | cons d cs ih =>
     intro o v h hp
-    rw [emitAll_cons, ih _ (v ++ prim d.frag d.val) (by simp [Out.formatTo, h, Sink.write, hp])
-      (by simp [Out.formatTo, hp]), textOf_cons]
+    have hd : prim.rej d.frag d.val = false := hacc d (by simp)
+    rw [emitAll_cons, ih (fun c hc => hacc c (by simp [hc])) _ (v ++ prim.text d.frag d.val)
+      (by simp [formatTo_acc prim o hd, h, Sink.write, hp]) (by simp [formatTo_acc prim o hd, hp]), textOf_cons,
+      out_of_acc prim hd]
     simp
 
-/-- a String written from a position inside it: the first call cuts it there -/
-theorem emitAll_str (c : Call) (cs : List Call) (o : Out) (v : Str) (h : o.sink = .str v) (hp : o.pos ≤ v.length) :
+/-- a String written from a position inside it: the first accepted call cuts it there -/
+theorem emitAll_str (c : Call) (cs : List Call) (hacc : AllAcc prim (c :: cs)) (o : Out) (v : Str) (h : o.sink = .str v)
+    (hp : o.pos ≤ v.length) :
     (emitAll prim o (c :: cs)).sink = .str (v.take o.pos ++ textOf prim (c :: cs)) := by
-  rw [emitAll_cons, emitAll_str_end prim cs _ (v.take o.pos ++ prim c.frag c.val)
-    (by simp [Out.formatTo, h, Sink.write]) (by simp [Out.formatTo, List.length_take]; omega), textOf_cons]
+  have hc : prim.rej c.frag c.val = false := hacc c (by simp)
+  rw [emitAll_cons, emitAll_str_end prim cs (fun d hd => hacc d (by simp [hd])) _ (v.take o.pos ++ prim.text c.frag c.val)
+    (by simp [formatTo_acc prim o hc, h, Sink.write]) (by simp [formatTo_acc prim o hc, List.length_take]; omega), textOf_cons,
+    out_of_acc prim hc]
   simp
+
+/-- sink and position after a sequence of calls depend only on sink and position before it -/
+theorem emitAll_congr (cs : List Call) : ∀ (o1 o2 : Out), o1.sink = o2.sink → o1.pos = o2.pos →
+    (emitAll prim o1 cs).sink = (emitAll prim o2 cs).sink ∧ (emitAll prim o1 cs).pos = (emitAll prim o2 cs).pos := by
+  induction cs with
+  | nil => intro o1 o2 h1 h2; exact ⟨h1, h2⟩
+  | cons c cs ih =>
+    intro o1 o2 h1 h2
+    rw [emitAll_cons, emitAll_cons]
+    apply ih
+    · unfold Out.formatTo; split <;> simp [h1, h2]
+    · unfold Out.formatTo; split <;> simp [h2]
+
+/-- with the guard in place the rejected calls of a sequence leave no trace on sink and position -/
+theorem emitAll_sink_accepted (hg : prim.Guarded) (cs : List Call) : ∀ (o : Out),
+    (emitAll prim o cs).sink = (emitAll prim o (accepted prim cs)).sink ∧
+    (emitAll prim o cs).pos = (emitAll prim o (accepted prim cs)).pos := by
+  induction cs with
+  | nil => intro o; exact ⟨rfl, rfl⟩
+  | cons c cs ih =>
+    intro o
+    by_cases h : prim.rej c.frag c.val = true
+    · have ha : accepted prim (c :: cs) = accepted prim cs := by simp [accepted, h]
+      rw [ha, emitAll_cons, formatTo_rej prim hg o h]
+      have h1 := ih { o with calls := o.calls ++ [⟨c.frag, c.val⟩] }
+      have h2 := emitAll_congr prim (accepted prim cs) { o with calls := o.calls ++ [⟨c.frag, c.val⟩] } o rfl rfl
+      exact ⟨h1.1.trans h2.1, h1.2.trans h2.2⟩
+    · have ha : accepted prim (c :: cs) = c :: accepted prim cs := by simp [accepted, h]
+      rw [ha, emitAll_cons, emitAll_cons]
+      exact ih _
+
+/-- **a String sink after any sequence of calls** (guard in place): untouched if no call was accepted, else cut at the
+    start position and followed by the text of the accepted calls -/
+theorem emitAll_str_guarded (hg : prim.Guarded) (cs : List Call) (o : Out) (v : Str) (h : o.sink = .str v) (hp : o.pos ≤ v.length) :
+    (emitAll prim o cs).sink = if accepted prim cs = [] then .str v else .str (v.take o.pos ++ textOf prim cs) := by
+  rw [(emitAll_sink_accepted prim hg cs o).1, ← textOf_accepted]
+  cases ha : accepted prim cs with
+  | nil => simp [emitAll, h]
+  | cons d ds =>
+    have := emitAll_str prim d ds (ha ▸ allAcc_accepted prim cs) o v h hp
+    simpa using this
 
 /-! ### purity -/
 
@@ -72,27 +194,49 @@ theorem pure_andThen {f g : Out → Out × Outcome} (hf : Pure prim f) (hg : Pur
   | raised e => exact ⟨cs, .raised e, fun o => by simp [andThen, hf]⟩
   | oob => exact ⟨cs, .oob, fun o => by simp [andThen, hf]⟩
 
+/-- one call is pure when the guard is in place: the outcome does not depend on the sink -/
+theorem call_pure (hg : prim.Guarded) (frag : Str) (v : PVal) : Pure prim (fun o => o.call prim frag v) :=
+  ⟨[⟨frag, v⟩], callOutcome prim frag v, fun o => by simp [call_guarded prim hg, emitAll]⟩
+
 variable (cfg : Cfg) (shw : Obj → Out → Out × Outcome)
 
-theorem action_pure (hs : ∀ a, Pure prim (shw a)) (k : Kind) (buf : Str) (a : Obj) :
+/-- an argument `print_to_with` can hand to any conversion without leaving purity: it is not the destination itself and
+    its `show` is pure -/
+def ArgPure (a : Obj) : Prop := a.isSink = false ∧ Pure prim (shw a)
+
+theorem action_pure (hg : prim.Guarded) (k : Kind) (buf : Str) (a : Obj) (ha : ArgPure prim shw a) :
     Pure prim (action prim shw k buf a) := by
   cases k with
-  | «show» => exact hs a
+  | «show» => exact ha.2
   | cstr =>
+    have hns : ∀ o, action prim shw .cstr buf a o =
+        match cStr a with
+        | .ok s => o.call prim buf (.cstr s)
+        | .error e => (o, .raised e) := by
+      intro o
+      cases a <;> first | rfl | exact absurd ha.1 (by decide)
     cases h : cStr a with
-    | ok s => exact ⟨[⟨buf, .cstr s⟩], .ok, fun o => by simp [action, h, emitAll]⟩
-    | error e => exact ⟨[], .raised e, fun o => by simp [action, h, emitAll]⟩
+    | ok s =>
+      obtain ⟨cs, oc, hc⟩ := call_pure prim hg buf (.cstr s)
+      exact ⟨cs, oc, fun o => by rw [hns, h]; exact hc o⟩
+    | error e => exact ⟨[], .raised e, fun o => by rw [hns, h]; rfl⟩
   | cint =>
     cases h : cInt a with
-    | ok s => exact ⟨[⟨buf, .i64 s⟩], .ok, fun o => by simp [action, h, emitAll]⟩
+    | ok s =>
+      obtain ⟨cs, oc, hc⟩ := call_pure prim hg buf (.i64 s)
+      exact ⟨cs, oc, fun o => by simpa [action, h] using hc o⟩
     | error e => exact ⟨[], .raised e, fun o => by simp [action, h, emitAll]⟩
   | cfloat =>
     cases h : cFloat a with
-    | ok s => exact ⟨[⟨buf, .dbl s⟩], .ok, fun o => by simp [action, h, emitAll]⟩
+    | ok s =>
+      obtain ⟨cs, oc, hc⟩ := call_pure prim hg buf (.dbl s)
+      exact ⟨cs, oc, fun o => by simpa [action, h] using hc o⟩
     | error e => exact ⟨[], .raised e, fun o => by simp [action, h, emitAll]⟩
-  | obj => exact ⟨[⟨buf, .ptr⟩], .ok, fun o => by simp [action, emitAll]⟩
+  | obj =>
+    obtain ⟨cs, oc, hc⟩ := call_pure prim hg buf .ptr
+    exact ⟨cs, oc, fun o => by simpa [action] using hc o⟩
 
-theorem dispatch_pure (hs : ∀ a, Pure prim (shw a)) (c : Char) (buf : Str) (a : Obj) :
+theorem dispatch_pure (hg : prim.Guarded) (c : Char) (buf : Str) (a : Obj) (ha : ArgPure prim shw a) :
     ∀ d : List (Matcher × Kind), Pure prim (dispatch prim shw d c buf a) := by
   intro d
   induction d with
@@ -100,7 +244,7 @@ theorem dispatch_pure (hs : ∀ a, Pure prim (shw a)) (c : Char) (buf : Str) (a 
   | cons mk r ih =>
     obtain ⟨m, k⟩ := mk
     by_cases hm : m.hit c = true
-    · obtain ⟨cs, oc, ha⟩ := action_pure prim shw hs k buf a
+    · obtain ⟨cs, oc, ha⟩ := action_pure prim shw hg k buf a ha
       obtain ⟨ds, od, hd⟩ := ih
       cases oc with
       | ok => exact ⟨cs ++ ds, od, fun o => by simp [dispatch, hm, ha, hd, emitAll_append]⟩
@@ -110,7 +254,7 @@ theorem dispatch_pure (hs : ∀ a, Pure prim (shw a)) (c : Char) (buf : Str) (a 
       exact ⟨ds, od, fun o => by simp [dispatch, hm, hd]⟩
 
 /-- the whole scanner loop is pure: its calls, outcome and marks do not depend on the destination -/
-theorem loop_pure (hs : ∀ a, Pure prim (shw a)) (fmt : Str) (args : List Obj) :
+theorem loop_pure (hg : prim.Guarded) (fmt : Str) (args : List Obj) (hs : ∀ a ∈ args, ArgPure prim shw a) :
     ∀ (fuel i index : Nat) (mk : Marks), ∃ cs oc mk', ∀ o,
       loop cfg prim shw fmt args fuel i index o mk = ⟨emitAll prim o cs, oc, mk'⟩ := by
   intro fuel
@@ -132,16 +276,22 @@ theorem loop_pure (hs : ∀ a, Pure prim (shw a)) (fmt : Str) (args : List Obj) 
       | some buf =>
       by_cases hgt : j - i > fmt.length
       · exact ⟨[], .oob, _, fun o => by rw [loop]; simp only [h0, hn, if_false, h1, if_pos hij, h2, if_pos hgt]; rfl⟩
-      · obtain ⟨cs, oc, mk', h⟩ := ih j index (((mk.read i).read j).write (j - i))
-        exact ⟨⟨cstrOf buf, .none⟩ :: cs, oc, mk', fun o => by
-          rw [loop]; simp only [h0, hn, if_false, h1, if_pos hij, h2, if_neg hgt, h]; rfl⟩
+      · by_cases hr : prim.rej (cstrOf buf) .none = true
+        · exact ⟨[⟨cstrOf buf, .none⟩], .raised .FormatError, _, fun o => by
+            rw [loop]; simp only [h0, hn, if_false, h1, if_pos hij, h2, if_neg hgt, call_guarded prim hg, callOutcome, if_pos hr]; rfl⟩
+        · obtain ⟨cs, oc, mk', h⟩ := ih j index (((mk.read i).read j).write (j - i))
+          exact ⟨⟨cstrOf buf, .none⟩ :: cs, oc, mk', fun o => by
+            rw [loop]; simp only [h0, hn, if_false, h1, if_pos hij, h2, if_neg hgt, call_guarded prim hg, callOutcome, if_neg hr, h]; rfl⟩
     · cases h5 : (if c0 = '%' then rd fmt (i + 1) else some NUL) with
       | none => exact ⟨[], .oob, _, fun o => by rw [loop]; simp only [h0, hn, if_false, h1, if_neg hij, h5]; rfl⟩
       | some c1 =>
       by_cases hpp : c0 = '%' ∧ c1 = '%'
-      · obtain ⟨cs, oc, mk', h⟩ := ih (i + 2) index (if c0 = '%' then ((mk.read i).read j).read (i + 1) else (mk.read i).read j)
-        exact ⟨⟨['%', '%'], .none⟩ :: cs, oc, mk', fun o => by
-          rw [loop]; simp only [h0, hn, if_false, h1, if_neg hij, h5, if_pos hpp, h]; rfl⟩
+      · by_cases hr : prim.rej ['%', '%'] .none = true
+        · exact ⟨[⟨['%', '%'], .none⟩], .raised .FormatError, _, fun o => by
+            rw [loop]; simp only [h0, hn, if_false, h1, if_neg hij, h5, if_pos hpp, call_guarded prim hg, callOutcome, if_pos hr]; rfl⟩
+        · obtain ⟨cs, oc, mk', h⟩ := ih (i + 2) index (if c0 = '%' then ((mk.read i).read j).read (i + 1) else (mk.read i).read j)
+          exact ⟨⟨['%', '%'], .none⟩ :: cs, oc, mk', fun o => by
+            rw [loop]; simp only [h0, hn, if_false, h1, if_neg hij, h5, if_pos hpp, call_guarded prim hg, callOutcome, if_neg hr, h]; rfl⟩
       · cases h7 : scanConv cfg.conv fmt (fmt.length + 2) i with
         | none => exact ⟨[], .oob, _, fun o => by rw [loop]; simp only [h0, hn, if_false, h1, if_neg hij, h5, if_neg hpp, h7]; rfl⟩
         | some j' =>
@@ -161,7 +311,7 @@ theorem loop_pure (hs : ∀ a, Pure prim (shw a)) (fmt : Str) (args : List Obj) 
             | none => exact ⟨[], .oob, _, fun o => by
                 rw [loop]; simp only [h0, hn, if_false, h1, if_neg hij, h5, if_neg hpp, h7, if_pos hij', h8, if_neg hgt, h9, h10]; rfl⟩
             | some c =>
-            obtain ⟨ds, od, hd⟩ := dispatch_pure prim shw hs c (cstrOf buf) a cfg.disp
+            obtain ⟨ds, od, hd⟩ := dispatch_pure prim shw hg c (cstrOf buf) a (hs a (List.mem_of_getElem? h9)) cfg.disp
             cases od with
             | ok =>
               obtain ⟨cs, oc, mk', h⟩ := ih (j' + 1) (index + 1)
@@ -175,29 +325,72 @@ theorem loop_pure (hs : ∀ a, Pure prim (shw a)) (fmt : Str) (args : List Obj) 
         · exact ⟨[], .raised .FormatError, _, fun o => by
             rw [loop]; simp only [h0, hn, if_false, h1, if_neg hij, h5, if_neg hpp, h7, if_neg hij']; rfl⟩
 
-theorem printToWith_pure (hs : ∀ a, Pure prim (shw a)) (fmt : Str) (args : List Obj) :
+theorem printToWith_pure (hg : prim.Guarded) (fmt : Str) (args : List Obj) (hs : ∀ a ∈ args, ArgPure prim shw a) :
     Pure prim (fun o => (printToWith cfg prim shw fmt args o).pair) := by
-  obtain ⟨cs, oc, mk', h⟩ := loop_pure prim cfg shw hs fmt args (fmt.length + 1) 0 0 ⟨0, 0⟩
+  obtain ⟨cs, oc, mk', h⟩ := loop_pure prim cfg shw hg fmt args hs (fmt.length + 1) 0 0 ⟨0, 0⟩
   exact ⟨cs, oc, fun o => by simp [printToWith, h, Result.pair]⟩
 
-/-! ### the built-in Show instances are pure -/
+/-! ### the loops of the built-in Show instances are pure -/
 
 variable (sc : ShowCfg)
 
-theorem showItems_pure (hs : ∀ a, Pure prim (shw a)) (sep : Str) :
-    ∀ items : List Obj, Pure prim (showItems cfg prim shw sep items) := by
+theorem showItems_pure (hg : prim.Guarded) (sep : Str) :
+    ∀ items : List Obj, (∀ a ∈ items, ArgPure prim shw a) → Pure prim (showItems cfg prim shw sep items) := by
   intro items
   induction items with
-  | nil => exact ⟨[], .ok, fun o => by simp [showItems, emitAll]⟩
+  | nil => intro _; exact ⟨[], .ok, fun o => by simp [showItems, emitAll]⟩
   | cons a r ih =>
+    intro hs
+    have ha : ∀ x ∈ [a], ArgPure prim shw x := fun x hx => hs x (by simp at hx; simp [hx])
     cases r with
-    | nil => simpa [showItems] using printToWith_pure prim cfg shw hs ['%', '$'] [a]
+    | nil => simpa [showItems] using printToWith_pure prim cfg shw hg ['%', '$'] [a] ha
     | cons b r =>
       simp only [showItems]
-      exact pure_andThen prim (printToWith_pure prim cfg shw hs _ _)
-        (pure_andThen prim (printToWith_pure prim cfg shw hs _ _) ih)
+      exact pure_andThen prim (printToWith_pure prim cfg shw hg _ _ ha)
+        (pure_andThen prim (printToWith_pure prim cfg shw hg _ [] (by simp)) (ih (fun x hx => hs x (by simp [hx]))))
 
-theorem showChars_pure (hs : ∀ a, Pure prim (shw a)) :
+theorem showPairs_pure (hg : prim.Guarded) (pair sep : Str) :
+    ∀ ps : List (Obj × Obj), (∀ p ∈ ps, ArgPure prim shw p.1 ∧ ArgPure prim shw p.2) →
+      Pure prim (showPairs cfg prim shw pair sep ps) := by
+  intro ps
+  induction ps with
+  | nil => intro _; exact ⟨[], .ok, fun o => by simp [showPairs, emitAll]⟩
+  | cons p r ih =>
+    intro hs
+    obtain ⟨k, v⟩ := p
+    have hp := hs (k, v) (by simp)
+    have ha : ∀ x ∈ [k, v], ArgPure prim shw x := by
+      intro x hx
+      simp at hx
+      rcases hx with rfl | rfl
+      · exact hp.1
+      · exact hp.2
+    cases r with
+    | nil => simpa [showPairs] using printToWith_pure prim cfg shw hg pair [k, v] ha
+    | cons q r =>
+      simp only [showPairs]
+      exact pure_andThen prim (printToWith_pure prim cfg shw hg _ _ ha)
+        (pure_andThen prim (printToWith_pure prim cfg shw hg _ [] (by simp)) (ih (fun x hx => hs x (by simp [hx]))))
+
+theorem showInts_pure (hg : prim.Guarded) (hi : ∀ n, Pure prim (shw (.int n))) (item sep : Str) :
+    ∀ ns : List Int, Pure prim (showInts cfg prim shw item sep ns) := by
+  intro ns
+  have ha : ∀ n, ∀ x ∈ [Obj.int n], ArgPure prim shw x := by
+    intro n x hx
+    simp at hx
+    subst hx
+    exact ⟨rfl, hi n⟩
+  induction ns with
+  | nil => exact ⟨[], .ok, fun o => by simp [showInts, emitAll]⟩
+  | cons n r ih =>
+    cases r with
+    | nil => simpa [showInts] using printToWith_pure prim cfg shw hg item [.int n] (ha n)
+    | cons m r =>
+      simp only [showInts]
+      exact pure_andThen prim (printToWith_pure prim cfg shw hg _ _ (ha n))
+        (pure_andThen prim (printToWith_pure prim cfg shw hg _ [] (by simp)) ih)
+
+theorem showChars_pure (hg : prim.Guarded) (hi : ∀ n, Pure prim (shw (.int n))) :
     ∀ s : Str, Pure prim (showChars cfg prim sc shw s) := by
   intro s
   induction s with
@@ -206,34 +399,12 @@ theorem showChars_pure (hs : ∀ a, Pure prim (shw a)) :
     simp only [showChars]
     refine pure_andThen prim ?_ ih
     cases sc.strEsc.lookup c with
-    | none => exact printToWith_pure prim cfg shw hs _ _
-    | some e => exact printToWith_pure prim cfg shw hs _ _
-
-theorem showD_pure : ∀ (d : Nat) (a : Obj), Pure prim (showD cfg prim sc d a) := by
-  intro d
-  induction d with
-  | zero => intro a; exact ⟨[], .raised .Fuel, fun o => by simp [showD, emitAll]⟩
-  | succ d ih =>
-    intro a
-    have hs : ∀ x, Pure prim (fun o => showD cfg prim sc d x o) := ih
-    cases a with
-    | int v => simpa [showD] using printToWith_pure prim cfg _ hs _ _
-    | flt v => simpa [showD] using printToWith_pure prim cfg _ hs _ _
-    | str s =>
-      simp only [showD]
-      exact pure_andThen prim (printToWith_pure prim cfg _ hs _ _)
-        (pure_andThen prim (showChars_pure prim cfg _ sc hs s) (printToWith_pure prim cfg _ hs _ _))
-    | array items =>
-      simp only [showD]
-      exact pure_andThen prim (printToWith_pure prim cfg _ hs _ _)
-        (pure_andThen prim (showItems_pure prim cfg _ hs _ items) (printToWith_pure prim cfg _ hs _ _))
-    | tuple items =>
-      simp only [showD]
-      exact pure_andThen prim (printToWith_pure prim cfg _ hs _ _)
-        (pure_andThen prim (showItems_pure prim cfg _ hs _ items) (printToWith_pure prim cfg _ hs _ _))
-    | list items =>
-      simp only [showD]
-      exact pure_andThen prim (printToWith_pure prim cfg _ hs _ _)
-        (pure_andThen prim (showItems_pure prim cfg _ hs _ items) (printToWith_pure prim cfg _ hs _ _))
+    | none =>
+      exact printToWith_pure prim cfg shw hg _ _ (by
+        intro x hx
+        simp at hx
+        subst hx
+        exact ⟨rfl, hi _⟩)
+    | some e => exact printToWith_pure prim cfg shw hg _ [] (by simp)
 
 end Cello.Fmt
